@@ -24,12 +24,16 @@
 (* Op(P, V, a) -> [V |-> store after, err |-> "" or an error tag].          *)
 (*                                                                         *)
 (* Keys are STRINGS in the code: the per-(AVS, operator) value lives under  *)
-(* avsAddr + "/" + operator with avsAddr exactly as the caller spelled it,  *)
-(* while the AVS registry resolves an address through HexToAddress (any     *)
-(* letter case).  The model therefore keys opt-in records and values by     *)
+(* avsAddr + "/" + operator, while the AVS registry resolves an address     *)
+(* through HexToAddress (any letter case).  The store is therefore keyed by *)
 (* (avs, form, operator): form = "canon" is the string stored in the AVS    *)
 (* info (the one GetEpochEndAVSs hands to UpdateVotingPower), form = "alt"  *)
-(* the same address in the other letter case.                               *)
+(* the same address in the other letter case.  Since fix 3eab997 OptIn and *)
+(* OptOut replace the caller's spelling by the stored one                   *)
+(* (avs.GetStoredAVSAddress), so every record they write is "canon"; the    *)
+(* constant KEYBYSENT = TRUE restores the behaviour before the fix (records *)
+(* keyed by the spelling as sent) - it is only used by the guard            *)
+(* configuration MC_VotingPower_dev, which must make InvC05 fail.           *)
 (***************************************************************************)
 EXTENDS Num, Sequences, FiniteSets, TLC, SequencesExt, FiniteSetsExt, Folds
 
@@ -40,7 +44,8 @@ CONSTANTS
   EIDS,     \* sequence of the epoch identifiers that matter, in store-key order
   DUR,      \* [identifier -> duration in seconds]
   PREC,     \* LegacyDec unit (10^18 in the code)
-  DECI      \* [asset -> decimals]
+  DECI,     \* [asset -> decimals]
+  KEYBYSENT \* FALSE: the tree with fix 3eab997; TRUE: the defect F-C05-avs-address-case seeded back
 
 VOPS    == {OORD[i] : i \in DOMAIN OORD}
 VASSETS == {AORD[i] : i \in DOMAIN AORD}
@@ -167,8 +172,10 @@ TickTime(V, x) == (IF V.ep[x].end > V.now THEN V.ep[x].end ELSE V.now) + 1
 (* opt.go: OptIn through msg_server.go: OptIntoAVS (one cache context)      *)
 (*   a = [o, avs, form]                                                     *)
 (***************************************************************************)
+KeyForm(a) == IF KEYBYSENT THEN a.form ELSE "canon"    \* opt.go: avsAddr = GetStoredAVSAddress(avsAddr)
+
 OptIn(P, V, a) ==
-  LET x == a.avs  ok == <<a.o, a.avs, a.form>>  uk == <<a.avs, a.form, a.o>> IN
+  LET x == a.avs  ok == <<a.o, a.avs, KeyForm(a)>>  uk == <<a.avs, KeyForm(a), a.o>> IN
   IF ~V.avs[x].ex THEN VFail(V, "ErrNoSuchAvs") ELSE
   IF V.opt[ok] = "in" THEN VFail(V, "ErrAlreadyOptedIn") ELSE
   \* GetOrCalculateOperatorUSDValues: a missing price round is an ERROR here (not in the epoch hook)
@@ -185,7 +192,7 @@ OptIn(P, V, a) ==
 (* opt.go: OptOut through msg_server.go: OptOutOfAVS                        *)
 (***************************************************************************)
 OptOut(V, a) ==
-  LET x == a.avs  ok == <<a.o, a.avs, a.form>>  uk == <<a.avs, a.form, a.o>> IN
+  LET x == a.avs  ok == <<a.o, a.avs, KeyForm(a)>>  uk == <<a.avs, KeyForm(a), a.o>> IN
   IF ~V.avs[x].ex THEN VFail(V, "ErrNoSuchAvs") ELSE
   IF V.opt[ok] # "in" THEN VFail(V, "ErrNotOptedIn") ELSE
   VOk([V EXCEPT !.usd[uk] = ZeroUsd, !.opt[ok] = "out",
